@@ -193,7 +193,7 @@ def make_cells(gi, tier):
                 raise Violation("%s: element %s changed after being used as an operand (in-place mutation)" % (nm, nm_),
                                 before=b.tolist(), after=cy.vec(a).tolist())
         MX, MY, MZ = gi.toM(X), gi.toM(Y), gi.toM(Z)
-        band = any(L.band_result(gi, m) for m in (MX @ MY, MY @ MX, MY @ MZ, MX @ MY @ MZ))
+        band = any(L.band_result(gi, m) for m in (MX @ MY, MY @ MX, MY @ MZ, MX @ MY @ MZ, np.linalg.inv(MX)))
         tol = 3 * L.BAND_TOL if band else 1e-9
         L.close(MXo, MX, "%s: M(X) on a reused object" % nm, atol=1e-12)
         L.close(gi.toM(cy.vec(XY)), MX @ MY, "%s: M(X*Y) on reused objects vs M(X)M(Y)" % nm, atol=tol)
